@@ -646,7 +646,14 @@ class BitString(base.SimpleAsn1Type):
         value: :class:`str` (Py2) or :class:`bytes` (Py3)
             Text string like '\\\\x01\\\\xff' (Py2) or b'\\\\x01\\\\xff' (Py3)
         """
-        value = SizedInteger(integer.from_bytes(value) >> padding).setBitLength(len(value) * 8 - padding)
+        bitLength = len(value) * 8 - padding
+
+        if bitLength < 0:
+            raise error.PyAsn1Error(
+                'Padding of %d bits exceeds %d octets of BIT STRING payload' % (padding, len(value))
+            )
+
+        value = SizedInteger(integer.from_bytes(value) >> padding).setBitLength(bitLength)
 
         if prepend is not None:
             value = SizedInteger(
